@@ -199,8 +199,11 @@ def collapse_items(items: ExpandedItems, is_linetable: bool) -> CollapsedItems:
         item = collapsed_items[i]
         prev_item = collapsed_items[i - 1]
         # For the bytecode split, the previouse line offset should be zero
+        # (a row without a line number is never the first part of a split, its
+        # continuation rows have no line number either)
         bytecode_offset_split = (
             (item if is_linetable else prev_item).line_offset == 0
+            and prev_item.line_offset is not None
             and prev_item.bytecode_offset >= (254 if is_linetable else 255)
             and item.bytecode_offset != 0
         )
@@ -254,7 +257,8 @@ def expand_items(items: CollapsedItems, is_linetable: bool) -> ExpandedItems:
                         bytecode_offset=MAX_BYTECODE,
                     )
                 )
-                if is_linetable:
+                # the rest of a range without a line number has no line number either
+                if is_linetable and line_offset is not None:
                     line_offset = 0
                 bytecode_offset -= MAX_BYTECODE
                 emitted_extra = True
